@@ -230,6 +230,16 @@ pub const PROBE_NAMES: [&str; 4] = ["fa", "fb", "fc", "fd"];
 pub fn gen_call_expr(d: &mut Dec, depth: u32, with_id: bool) -> Expr {
     let args = similar_args();
     let arg = |d: &mut Dec| -> Expr {
+        // (one argument in eight is the whole input or a field of it, or a literal that equals it: the argument is its
+        // value, however it is spelled)
+        if !with_id && d.below(8) == 7 {
+            return match d.below(4) {
+                0 => Expr::reff("facts"),
+                1 => Expr::Value(pool::map(&[("vi", Value::Int(5))])),
+                2 => Expr::reff("vi"),
+                _ => Expr::value(5),
+            };
+        }
         let v = Expr::Value(d.pick(&args).clone());
         if with_id {
             Expr::Vec(vec![Expr::reff("id"), v])
@@ -241,7 +251,29 @@ pub fn gen_call_expr(d: &mut Dec, depth: u32, with_id: bool) -> Expr {
         let a = arg(d);
         return Expr::func(*d.pick(&PROBE_NAMES), a);
     }
-    match d.below(8) {
+    match d.below(12) {
+        // calls under every other node kind: membership, strict binary and unary operators, index steps
+        8 => {
+            let k = *d.pick(&crate::data::BINARY_KINDS[..]);
+            let a = gen_call_expr(d, depth - 1, with_id);
+            let b = gen_call_expr(d, depth - 1, with_id);
+            crate::data::mk2(k, a, b)
+        }
+        9 => {
+            let k = *d.pick(&crate::data::UNARY_KINDS[..]);
+            crate::data::mk1(k, gen_call_expr(d, depth - 1, with_id))
+        }
+        10 => {
+            let n = 1 + d.below(3);
+            let items: Vec<Expr> = (0..n).map(|_| gen_call_expr(d, depth - 1, with_id)).collect();
+            let item = gen_call_expr(d, depth - 1, with_id);
+            if d.bool() {
+                Expr::contains(Expr::Vec(items), item)
+            } else {
+                Expr::contains(item, Expr::Vec(items))
+            }
+        }
+        11 => Expr::index(gen_call_expr(d, depth - 1, with_id), reval::expr::Index::Vec(d.below(3))),
         0 | 1 | 2 => {
             let n = 1 + d.below(4);
             Expr::Vec((0..n).map(|_| gen_call_expr(d, depth - 1, with_id)).collect())
